@@ -805,6 +805,20 @@ let run_cdy mo jo impl secs =
          | _ -> ()) lines)
   | _ -> ()
 
+(* ---- OWN: copies / moves (run-time side of C19) ---- *)
+let run_own mo jo impl secs =
+  match secs with
+  | ("OWN" :: id :: _) :: _ ->
+    pr mo "C %s\n" id;
+    List.iter (fun c -> pr mo "D %s ok\n" c)
+      ["PGMIndex"; "CompressedPGMIndex"; "BucketingPGMIndex"; "EliasFanoPGMIndex"; "MultidimensionalPGMIndex"; "DynamicPGMIndex"];
+    (match Hashtbl.find_opt impl id with
+     | None -> ()
+     | Some lines -> List.iter (function
+         | ["D"; c; r] -> judge jo "C19" id ("a copy/move of " ^ c ^ " answers differently from its source") (r = "ok")
+         | _ -> ()) lines)
+  | _ -> ()
+
 (* ---- THR: concurrent readers (run-time side of C16); the expected outcome is that every thread's digest
    equals the sequential digest for every class ---- *)
 let run_thr mo jo impl secs =
@@ -836,6 +850,7 @@ let () =
     | "mul" -> run_mul mo jo impl secs
     | "capi" -> run_cix mo jo impl secs; run_cdy mo jo impl secs
     | "thr" -> run_thr mo jo impl secs
+    | "own" -> run_own mo jo impl secs
     | "all" -> run_idx mo jo impl secs; run_seg mo jo impl secs; run_pla mo jo impl secs; run_dyn mo jo impl secs; run_bkt mo jo impl secs; run_efi mo jo impl secs;
       run_map mo jo impl secs; run_mul mo jo impl secs; run_cix mo jo impl secs; run_cdy mo jo impl secs
     | _ -> failwith "unknown mode") (read_lines cases);
